@@ -634,6 +634,13 @@ class Program:
             return p
         if t == "expr":
             return self.ref(f["n"])
+        if t == "lib":
+            import labrea.functions as F
+
+            from . import c20rt
+
+            refs = {f"_r_{k}": self.ref(v) for k, v in f["refs"].items()}
+            return eval(f["expr"].format(**{k: f"_r_{k}" for k in f["refs"]}), {"F": F, "_s": c20rt, **refs})
         raise ValueError(t)
 
     def _b_apply(self, n):
